@@ -1344,6 +1344,18 @@ func (t *AESGCMBarrierTransaction) Delete(ctx context.Context, key string) error
 }
 
 func (t *AESGCMBarrierTransaction) Commit(ctx context.Context) error {
+	// A sealed barrier serves no writes; this includes the ones buffered in
+	// a transaction that was started before the barrier was sealed.
+	t.aes.l.RLock()
+	sealed := t.aes.sealed
+	t.aes.l.RUnlock()
+	if sealed {
+		if err := t.txn.Rollback(ctx); err != nil {
+			return errors.Join(ErrBarrierSealed, err)
+		}
+		return ErrBarrierSealed
+	}
+
 	return t.txn.Commit(ctx)
 }
 
